@@ -374,3 +374,64 @@ Section HashLocal.
     wf a = true -> wf b = true -> single_change a b -> H (stream a) <> H (stream b).
   Proof. intros Ha Hb Hc E. exact (single_change_stream a b Hc Ha Hb (H_inj _ _ E)). Qed.
 End HashLocal.
+
+(* ---- paths that are not directories: injective up to the marker alias ---- *)
+Section HashFlat.
+  Variable H : str -> str.
+  Hypothesis H_inj : forall x y, H x = H y -> x = y.
+
+  Lemma nondir_injective :
+    (forall c c', c <> c' -> H (stream (File c)) <> H (stream (File c')))
+    /\ (forall t t', t <> t' -> H (stream (Link t)) <> H (stream (Link t')))
+    /\ (forall c t, c <> 2%N :: t -> H (stream (File c)) <> H (stream (Link t))).
+  Proof.
+    repeat split; intros x y Hne E; apply H_inj in E; cbn [stream] in E;
+      rewrite ?gen_top_file, ?gen_top_link in E; congruence.
+  Qed.
+
+  Lemma classified_hash_equal a b d :
+    wf a = true -> wf b = true -> defect_class a b = Some d -> H (stream a) = H (stream b).
+  Proof. intros Ha Hb Hd. f_equal. exact (classified_collides a b d Ha Hb Hd). Qed.
+End HashFlat.
+
+(* ---- the refutation: concrete collisions, one per class (all replayed on the real hasher by
+        harness/cmd/c09) ---- *)
+Definition collides (a b : node) (d : defect) : Prop :=
+  wf a = true /\ wf b = true /\ a <> b /\ stream a = stream b /\ defect_class a b = Some d.
+
+Ltac collision := unfold collides; repeat split; try (vm_compute; reflexivity); discriminate.
+
+Lemma witness_rename :
+  collides (Dir [(s "a", File (s "x"))]) (Dir [(s "b", File (s "x"))]) DirNames.
+Proof. collision. Qed.
+Lemma witness_boundary :
+  collides (Dir [(s "a", File (s "xy"))]) (Dir [(s "a", File (s "x")); (s "b", File (s "y"))]) FileBoundaries.
+Proof. collision. Qed.
+Lemma witness_empty_file : collides (Dir []) (Dir [(s "e", File [])]) FileBoundaries.
+Proof. collision. Qed.
+Lemma witness_link_target :
+  collides (Dir [(s "l", Link (s "p"))]) (Dir [(s "l", Link (s "q"))]) DirLinkTarget.
+Proof. collision. Qed.
+Lemma witness_empty_dir : collides (Dir []) (Dir [(s "d", Dir [])]) DirNesting.
+Proof. collision. Qed.
+Lemma witness_move_into_subdir :
+  collides (Dir [(s "a", File (s "x"))]) (Dir [(s "a", Dir [(s "b", File (s "x"))])]) DirNesting.
+Proof. collision. Qed.
+Lemma witness_file_vs_dir : collides (File (s "x")) (Dir [(s "a", File (s "x"))]) RootKind.
+Proof. collision. Qed.
+Lemma witness_link_vs_dir :
+  collides (Link (s "x")) (Dir [(s "a", Link (s "q")); (s "b", File (s "x"))]) RootKind.
+Proof. collision. Qed.
+Lemma witness_marker_top : collides (Link (s "t")) (File (2%N :: s "t")) MarkerAlias.
+Proof. collision. Qed.
+Lemma witness_marker_in_dir :
+  collides (Dir [(s "a", Link (s "t"))]) (Dir [(s "a", File [2%N])]) MarkerAlias.
+Proof. collision. Qed.
+
+Lemma full_statement_refuted :
+  ~ (forall (H : str -> str), (forall x y, H x = H y -> x = y) ->
+     forall a b, wf a = true -> wf b = true -> a <> b -> H (stream a) <> H (stream b)).
+Proof.
+  intros S. destruct witness_rename as (Ha & Hb & Hne & E & _).
+  exact (S (fun x => x) (fun _ _ e => e) _ _ Ha Hb Hne E).
+Qed.
